@@ -339,6 +339,21 @@ def cmd_check(prop, tier, seed):
         viol, ff, harness = parse_output(out)
         if pr.get("watchdog"):
             continue
+        if viol is None and not harness and rc == 2 and re.search(r"^(panic:|fatal error:)", out, re.M) and "test timed out" not in out:
+            # the whole test process crashed inside a run (a panic on a goroutine of
+            # the code under test that nothing recovers): a crash is a violation if
+            # the run that was in progress crashes again when replayed by its seed.
+            cs = pr["stats"] + ".curseed"
+            if os.path.exists(cs):
+                try:
+                    seed_of_run = int(open(cs).read().split()[0])
+                except Exception:
+                    seed_of_run = None
+                if seed_of_run is not None:
+                    m = re.search(r"^(panic:|fatal error:)(.*)$", out, re.M)
+                    viol = {"property": prop, "oracle": "process_crash", "sig": "crash", "detail": "test process crashed: " + m.group(0)[:300]}
+                    ff = "seed:%d" % seed_of_run
+                    crash = True
         if viol is None or harness:
             log("vf: worker %s failed without a violation record (rc=%s, harness=%s); tail:\n%s" % (pr["wd"], rc, harness, out[-3000:]))
             rc_final = 2
@@ -372,6 +387,8 @@ def cmd_check(prop, tier, seed):
         ok = 0
         for _ in range(tries):
             rrc, rviol, rharness, _o = run_replay(bins[j["engine"]], j, tier, rp, pr["wd"])
+            if viol["oracle"] == "process_crash" and rviol is None and rrc == 2 and re.search(r"^(panic:|fatal error:)", _o, re.M) and "test timed out" not in _o:
+                rviol = viol
             if rviol and rviol["oracle"] == viol["oracle"] and rviol["property"] == viol["property"]:
                 ok += 1
                 if ok >= 1 and tries == 1:
@@ -470,6 +487,9 @@ def cmd_replay(path):
     tries = 1 if not eng.get("residual_nondeterminism") else 20
     for i in range(tries):
         rc, viol, harness, out = run_replay(b, job, meta["tier"], path, wd)
+        if viol is None and meta.get("violation", {}).get("oracle") == "process_crash" and rc == 2 and re.search(r"^(panic:|fatal error:)", out, re.M):
+            viol = meta["violation"]
+            print(out[-3000:])
         if viol:
             for line in out.splitlines():
                 if "VERIF-TRACE" in line:
